@@ -145,6 +145,11 @@ func NewStream(conn net.Conn) *Stream {
 // If the context is cancelled, it closes the connection to interrupt the write.
 func (s *Stream) writeWithContext(ctx context.Context, data []byte) error {
 	if ctx.Err() != nil {
+		// The frame handed to us has already been sealed (its nonce is spent) and
+		// hashed into the handshake digest; not sending it leaves the two ends out
+		// of step. Close the connection, as the in-flight cancellation path does,
+		// rather than leave it half-used.
+		_ = s.conn.Close()
 		return ctx.Err()
 	}
 
@@ -228,6 +233,11 @@ func (s *Stream) grabFrame(n int) []byte {
 
 // sendMessageWithEnd sends a message with specified end flag
 func (s *Stream) sendMessageWithEnd(ctx context.Context, data []byte, end byte) error {
+	// A context that is already done must not cost a nonce or a digest update:
+	// fail before any stream state changes, leaving the connection usable.
+	if err := ctx.Err(); err != nil {
+		return err
+	}
 	// Bound the length that goes on the wire, not the plaintext: on an encrypting
 	// stream the frame grows by the 16-byte GCM tag (plus the 16-byte IV on the
 	// first frame), and ReceiveFrame/ReceiveFrameWithEnd reject a wire length
